@@ -6,7 +6,7 @@
    nothing is assumed about H. *)
 From DV Require Import Base.Prelude.
 From DV Require Model.NameM.
-From DV Require Import Model.TsigM Proofs.TsigSpec Proofs.TsigLemmas Proofs.TsigInj Proofs.TsigReader Proofs.TsigStream Proofs.TsigSender.
+From DV Require Import Model.TsigM Proofs.TsigSpec Proofs.TsigLemmas Proofs.TsigInj Proofs.TsigReader Proofs.TsigStream Proofs.TsigSender Proofs.TsigTamper.
 Open Scope Z_scope.
 
 (* ---- the octets fed to the MAC are the RFC 8945 input ---- *)
@@ -243,6 +243,30 @@ Theorem read_accepts_only_validated :
              /\ decided H w kr rmac now multi owner rd start ctx (m_ctx m))).
 Proof. exact read_ok. Qed.
 Print Assumptions read_accepts_only_validated.
+
+(* message level: two wire messages read as validated under the same key, request MAC and MAC
+   value carry identical authenticated content, or the truncated keyed hash collides on their two
+   distinct RFC inputs *)
+Theorem read_tamper_needs_collision :
+  forall H k rmac ctx multi w1 now1 m1 owner1 rd1 w2 now2 m2 owner2 rd2,
+    (ctx = None \/ multi = false) ->
+    all_bytes w1 = true -> all_bytes w2 = true ->
+    read H w1 (KR_Key k) rmac ctx multi now1 = Ok m1 -> m_tsig m1 = Some (owner1, rd1) ->
+    read H w2 (KR_Key k) rmac ctx multi now2 = Ok m2 -> m_tsig m2 = Some (owner2, rd2) ->
+    t_mac rd1 = t_mac rd2 ->
+    exists body1 start1 body2 start2 ad1 ad2 h sz,
+      m_recs m1 = body1 ++ [(3, TSIG, ANY, start1)] /\ m_recs m2 = body2 ++ [(3, TSIG, ANY, start2)] /\
+      get_adcount w1 = Ok ad1 /\ get_adcount w2 = Ok ad2 /\
+      assoc_name hashes (kalg k) = Some (h, sz) /\
+      let d1 := rfc8945_input (omac rmac) (t_oid rd1) (rfc_received_message w1 ad1 start1) (vars_of k rd1 (t_time rd1)) in
+      let d2 := rfc8945_input (omac rmac) (t_oid rd2) (rfc_received_message w2 ad2 start2) (vars_of k rd2 (t_time rd2)) in
+      ((length (skipn 2 (rfc_received_message w1 ad1 start1)) = length (skipn 2 (rfc_received_message w2 ad2 start2))
+        \/ length (t_other rd1) = length (t_other rd2)) ->
+       authenticated w1 ad1 start1 rd1 = authenticated w2 ad2 start2 rd2
+       \/ (d1 <> d2 /\
+           rfc_truncate (trunc_of sz) (H h (ksecret k) d1) = rfc_truncate (trunc_of sz) (H h (ksecret k) d2))).
+Proof. exact read_tamper_needs_collision_lemma. Qed.
+Print Assumptions read_tamper_needs_collision.
 
 (* ---- multi-message exchanges with any subset of envelopes unsigned (RFC 8945 5.3.1) ---- *)
 Theorem read_stream_is_rfc :
